@@ -88,13 +88,13 @@ def oracle_fixed(case):
     ll_fit = loglik(cname, fit, x)
     if case.get("offset"):
         ll_start = loglik(cname, ref, x)
-        if ll_fit < ll_start - (1e-3 + 1e-6 * abs(ll_fit)):
+        if ll_fit < ll_start - (1e-3 + 1e-6 * abs(ll_start)):   # (tolerance from the finite side: a fit of likelihood -inf loses)
             return (dict(sig, clause="loses-vs-start"),
                     "%s(%s, start %r).fit(x): log-likelihood %.6f at the fitted parameters %r < %.6f at the start parameters"
                     % (cname, ", ".join("%s=%r" % kv for kv in fx.items()), start, ll_fit, fit, ll_start))
         return None
     ll_true = loglik(cname, th, x)
-    if ll_fit < ll_true - (1e-3 + 1e-6 * abs(ll_fit)):
+    if ll_fit < ll_true - (1e-3 + 1e-6 * abs(ll_true)):
         return (dict(sig, clause="loses-vs-true"),
                 "%s(%s).fit(x): log-likelihood %.6f at the fitted parameters %r < %.6f at the generating parameters %r (which satisfy the fixed values)"
                 % (cname, ", ".join("%s=%r" % kv for kv in fx.items()), ll_fit, fit, ll_true, th))
@@ -144,7 +144,7 @@ def oracle(case, notes=None):
     if any(fit[p] <= 0 for p in adm):
         return ({"cls": cname, "clause": "inadmissible"}, "fitted parameters not admissible: %r" % fit)
     ll_fit, ll_start, ll_true = loglik(cname, fit, x), loglik(cname, start_th, x), loglik(cname, th, x)
-    tol = 1e-3 + 1e-6 * abs(ll_fit)
+    tol = 1e-3 + 1e-6 * (abs(ll_fit) if np.isfinite(ll_fit) else 0.0)
     if cname != "LogNormalNormFitDistribution":   # moment fit, not an MLE of the log-normal likelihood
         if ll_fit < ll_start - tol:
             return ({"cls": cname, "clause": "loses-vs-start"}, "log-likelihood %.6f after fit < %.6f at the start parameters" % (ll_fit, ll_start))
